@@ -491,6 +491,10 @@ def gen_case(seed, tier):
         return {'kind': 'reclimit', 'defaults': r.choice([{'d': 1}, {},
                                                           {'d': 1, 'e': 2}]),
                 'inner_try': r.random() < 0.5,
+                'wrap': r.choice([None, 'let', 'with', 'in', 'inname', 'inname']),
+                # (an item that is pushed, one that is not, both: the
+                # height of the namespace stack per level varies)
+                'rseq': r.choice([[1], ['s'], ['s', 1], [1, 's']]),
                 'catch': r.choice(['SystemError', '', 'Exception']),
                 'plans': None}
     # swarm: a random subset of kinds, always something that pushes
@@ -583,9 +587,22 @@ def prepare(case):
     if case.get('guard'):
         HTML = guarded_class(case['guard'])
     if case['kind'] == 'reclimit':
-        inner = ('<dtml-var S_r_0><dtml-try><dtml-var REC><dtml-except %s>'
+        # (the recursive call sits inside a block that pushes as well, so a
+        # deep but legal recursion also means a tall namespace stack)
+        call = {None: '<dtml-var REC>',
+                'let': '<dtml-let rl="1"><dtml-var REC></dtml-let>',
+                'with': '<dtml-with "_.namespace(rw=1)"><dtml-var REC>'
+                        '</dtml-with>',
+                'in': '<dtml-in "(1,)"><dtml-var REC></dtml-in>',
+                'inname': '<dtml-in RSEQ><dtml-var REC></dtml-in>',
+                }[case.get('wrap') if not case['inner_try'] else None]
+        # (with a handler at every level the traceback module, which the
+        # handler calls, runs into the interpreter's own recursion limit on
+        # the long chain of exceptions: not this package's matter, section
+        # 3.2, so the wrapped form is used without inner handlers only)
+        inner = ('<dtml-var S_r_0><dtml-try>%s<dtml-except %s>'
                  '<dtml-var H_r></dtml-try><dtml-var S_r_1>'
-                 % case['catch']) if case['inner_try'] else '<dtml-var REC>'
+                 % (call, case['catch'])) if case['inner_try'] else call
         rec = HTML(inner, **dict(case['defaults']))
         top = HTML('<dtml-var S_b0_0><dtml-try><dtml-var REC><dtml-except>'
                    '<dtml-var S_h_0></dtml-try><dtml-var S_b0_1>')
@@ -615,6 +632,8 @@ def execute(case, prep, plan):
     env.extra_names = dict(prep['subs'])
     env.extra_names.update({'X_EA': E.EA, 'X_EAB': E.EAB,
                             'URL': 'http://h/p', 'RESPONSE': Resp()})
+    if case['kind'] == 'reclimit':
+        env.extra_names['RSEQ'] = tuple(case.get('rseq') or (1,))
     env.extra_names.update(case.get('req', {}))
     path = env.extra_names.pop('tree_e_path', None)
     if path:
